@@ -36,7 +36,8 @@ from ..common import w, wl, wll, rd, rdl, rdll, close, fr, Infra
 from rpylib.distribution.sampling import SamplingMethod
 from rpylib.distribution.samplingfactory import create_q_vector
 from rpylib.grid.grid import Coordinates
-from rpylib.model.levymodel.levymodel import LevyRepresentation as LR
+from rpylib.model.levymodel.exponentialoflevymodel import ExponentialOfLevyModel
+from rpylib.model.levymodel.levymodel import LevyRepresentation as LR, LevyMeasure, LevyModel, LevyTriplet
 from rpylib.process.markovchain import markovchain as mc_mod
 from rpylib.process.markovchain import markovchainlevycopula as mclc_mod
 from rpylib.process.markovchain.markovchain import MarkovChainProcess
@@ -58,6 +59,15 @@ RULE = ("1-d structured: model families (HEM, Merton, VG, CGMY in all five activ
         "intervals), maximum time step (epsilon < maturity with either payoff kind, epsilon >= maturity), maturity ~ 16 expected "
         "jumps, and one path per coordinate simulated with prescribed normal variates (copula chain: one product date only - with "
         "two or more its simulators raise, known finding C15-copula-several-dates-raise). "
+        "User-defined collaborators (the property quantifies over every model, not only the shipped families): a subclass of the public "
+        "abstract LevyModel = Brownian part sigma in {0, 1/8, 1/4, 1/2} + the jump parts of one or two shipped families (two: a "
+        "user-defined LevyMeasure, the sum), i.e. the combinations no shipped family has - diffusion AND infinite-variation jumps (CGMY "
+        "1 <= y < 2, alone or plus compound-Poisson / finite-variation parts), diffusion + infinite-activity finite-variation jumps - "
+        "with the triplet DECLARED at construction in any admissible representation with a drift a != 0 (optionally re-declared with "
+        "set_representation), as Levy model or wrapped in the public ExponentialOfLevyModel, on the same grids / refinements / methods / "
+        "simulation schemes as the shipped families (the first six cases of every run are fixed combinations with sigma > 0); such models "
+        "are also margins of the copula chains (finite variation: 30% of the copula cases, any declared representation; scripted "
+        "variance matrix: margins with sigma > 0 and infinite variation in the same margin). "
         "non-trivial = chain built and initialised on a well-formed grid with >= 5 points; distinct = distinct (model, "
         "parameters, representation, grid arguments, refinements, method)")
 NOT_PROVED = [
@@ -79,6 +89,9 @@ ASSUMPTIONS = [
     "agreement with the implementation <= 5e-15 relative over seeds 0..5, tolerance 1e-9",
     "the declared representation is changed with LevyTriplet.set_representation on the caller's model: its result a_R is taken as "
     "the declaration (whether the conversion is right is C10)",
+    "user-defined models: the jump parts reuse the shipped families' measure objects (their closed-form integrals are C09's subject); the "
+    "sum measure adds the parts' integrals; levy_exponent_pure_jump (only used for the exponential model's omega, an input here) is the "
+    "sum of the parts' exponents",
     "the simulation schemes draw their normal variates through numpy.random.normal (replaced for the duration of a path; Infra if it is "
     "never called although a diffusion component is produced); for a d-dimensional chain a flat draw of d*n variates is read as the "
     "C-ordered (d, n) array (coordinate-major), an array draw as (..., d, n)",
@@ -163,6 +176,42 @@ def guarded(ctx, d, cls, fn, *a, **k):
             raise
         where = [f"{f.filename.split('/rpylib/')[-1]}:{f.lineno}" for f in frames if "/rpylib/" in f.filename][-3:]
         ctx.fail("oracle", "c04.chain.raises", d, {"exception": repr(e)[:400], "where": where}, cls=cls)
+
+
+def nonfinite(**vals):
+    """names of the values (numbers / lists / lists of lists) that are not all finite"""
+    bad = []
+    for name, v in vals.items():
+        try:
+            ok = bool(np.all(np.isfinite(np.asarray(v, dtype=float))))
+        except (TypeError, ValueError):
+            ok = False
+        if not ok:
+            bad.append(name)
+    return bad
+
+
+def ask(ctx, d, cls, fields, parsers):
+    """one request to Drivers/C04 (fields: strings / numbers / wire lists already formed) parsed token by token.  Never raises on what
+    the implementation produced: a value that cannot be written on the wire (nan) or an answer of the driver that is not the numbers
+    asked for ('bad-op', e.g. for an infinite entry) is a `corr` failure - the tie cannot be evaluated on this input - and None is
+    returned.  (Callers report non-finite numbers of the implementation as oracle failures BEFORE asking.)"""
+    try:
+        req = " ".join(f if isinstance(f, str) else w(f) for f in fields)
+    except (ValueError, TypeError, OverflowError) as e:
+        ctx.fail("corr", "c04.driver_request.model", d, {"name": "Drivers/C04: the request cannot be formed from the implementation's values",
+                                                        "op": str(fields[0]), "exception": repr(e)[:200]}, cls=cls)
+        return None
+    ans = ctx.lean(req)
+    toks = ans.split(" ")
+    try:
+        if toks[0] == "bad-op" or len(toks) < len(parsers):
+            raise ValueError("not the answer asked for")
+        return [parse(t) for parse, t in zip(parsers, toks)]
+    except (ValueError, ZeroDivisionError, IndexError) as e:
+        ctx.fail("corr", "c04.driver_answer.model", d, {"name": "Drivers/C04 did not answer the request with the numbers asked for",
+                                                       "request": req[:400], "answer": ans[:200], "exception": repr(e)[:120]}, cls=cls)
+        return None
 
 
 class Recorder:
@@ -469,10 +518,21 @@ def chain_probe(ctx, d, cls, model, rep, g, method_name, corr=True, density=None
     if not corr:
         return
     # ---- C: the model, fed the untruncated measure's own integrals at the intervals it asks for
-    tbl = mid_table(g, ax)
-    head = f"{wl(ax)} {o} {w(h)} {tbl} {1 if fv else 0}"
-    out = ctx.lean(f"queries {head}").split(" ")
-    qm, q1, q2 = rdll(out[0]), rdll(out[1]), rdll(out[2])
+    bad = nonfinite(axis=ax, h=h, sigma=sigma, model_drift=mdrift, rates=q, process_drift=drift, a_tilde=a_tilde)
+    if bad:
+        ctx.fail("oracle", "c04.chain.nonfinite", d, {"what": "the chain / the model hands out non-finite numbers where the statement needs numbers",
+                                                    "non_finite": bad}, cls=cls)
+        return
+    try:
+        tbl = mid_table(g, ax)
+    except ValueError:
+        ctx.fail("oracle", "c04.chain.nonfinite", d, {"what": "grid.middle of two neighbouring states is not a finite number"}, cls=cls)
+        return
+    head = [wl(ax), str(o), w(h), tbl, "1" if fv else "0"]
+    out = ask(ctx, d, cls, ["queries"] + head, [rdll, rdll, rdll])
+    if out is None:
+        return
+    qm, q1, q2 = out
     try:
         mv = [float(nu0.integrate(float(a), float(b))) for a, b in qm]
         m1v = [float(nu0.integrate_against_x(float(a), float(b))) for a, b in q1]
@@ -483,11 +543,10 @@ def chain_probe(ctx, d, cls, model, rep, g, method_name, corr=True, density=None
     if not all(math.isfinite(v) for v in mv + m1v + m2v):
         ctx.branches["c04.corr_skipped_nonfinite_integral"] += 1
         return
-    out = ctx.lean(f"chain {head} {w(sigma)} {w(mdrift)} {w(a_tilde)} {wl(mv)} {wl(m1v)} {wl(m2v)} []").split(" ")
-    if out[0] == "bad-op":
-        raise Infra("Drivers/C04 chain rejected its own query list")
-    m_muh, m_mut, m_drift, m_eq2, m_jm, m_mean, m_j2, m_osc, m_walked = (rd(out[0]), rd(out[1]), rd(out[2]), rd(out[3]), rd(out[4]),
-                                                                       rd(out[5]), rd(out[6]), rd(out[7]), rdll(out[8]))
+    out = ask(ctx, d, cls, ["chain"] + head + [sigma, mdrift, a_tilde, wl(mv), wl(m1v), wl(m2v), "[]"], [rd] * 8 + [rdll])
+    if out is None:
+        return
+    m_muh, m_mut, m_drift, m_eq2, m_jm, m_mean, m_j2, m_osc, m_walked = out
     sc = fr(abs(mdrift) + abs(a_tilde) + sum(abs(v) for v in m1v) + abs_jump)
     sc = max(sc, Fraction(1, 2 ** 200))
     span = fr(max(abs(ax[0]), abs(ax[-1])))
@@ -514,6 +573,45 @@ def reps_for(model):
     return ["ONEONE", "TILDE", "CENTER"] + (["ZERO"] if fv else [])
 
 
+def draw_grid(ctx, rng, model, hs):
+    """one of the six grid constructors with drawn arguments, refined 0..2 times; None if the constructor refuses the model / the
+    axis is not well formed (counted in the branches)"""
+    kind = rng.choice(zoo.GRID_KINDS)
+    h = rng.choice(hs)
+    kw = {}
+    if kind in ("uniform", "geometric"):
+        kw["truncation_probability"] = rng.choice([0.99, 0.999, 0.99999])
+    if kind in ("geometric", "geometric_bounds"):
+        kw["nb"] = rng.choice([2, 3, 5, 8])
+    if kind == "geometric_bounds":
+        kw["truncations"] = (-rng.choice([0.5, 1.0, 2.0]), rng.choice([0.75, 1.5, 3.0]))
+    if kind == "fixed":
+        kw["nb_of_points"] = rng.choice([5, 9, 21, 41])
+    if kind == "probstep":
+        kw["minimum_probability_step"] = rng.choice([0.05, 0.1, 0.2])
+        h = max(h, 0.05)
+    if kind == "credit":
+        kw["level_a"] = -rng.choice([0.25, 0.3, 0.5])
+    try:
+        g, gd = zoo.make_grid(kind, model, h, **kw)
+    except Exception as e:
+        ctx.branches[f"c04.ctor_raises:{kind}:{type(e).__name__}"] += 1
+        return None
+    ax0 = [float(x) for x in g.axes[0]]
+    if not axis_ok(ax0, int(g.origin_coordinate.value)):
+        ctx.branches[f"c04.skipped_not_wellformed:{kind}"] += 1
+        return None
+    k = rng.randint(0, 2 if kind != "probstep" else 1)
+    while k > 0 and (len(ax0) - 1) * 2 ** k + 1 > 500:
+        k -= 1
+    for _ in range(k):
+        g.refine()
+    if not axis_ok([float(x) for x in g.axes[0]], int(g.origin_coordinate.value)):
+        ctx.branches[f"c04.skipped_not_wellformed_after_refine:{kind}"] += 1
+        return None
+    return g, gd, kind, k
+
+
 def run_1d(ctx, nmodels, corr=True):
     rng = ctx.rng
     hs = [0.2, 0.1, 0.05]
@@ -530,43 +628,145 @@ def run_1d(ctx, nmodels, corr=True):
             if not math.isfinite(float(model.levy_triplet.a)):
                 ctx.branches[f"c04.declared_a_nonfinite:{fam}:{rep_name}"] += 1
                 continue
-            kind = rng.choice(zoo.GRID_KINDS)
-            h = rng.choice(hs)
-            kw = {}
-            if kind in ("uniform", "geometric"):
-                kw["truncation_probability"] = rng.choice([0.99, 0.999, 0.99999])
-            if kind in ("geometric", "geometric_bounds"):
-                kw["nb"] = rng.choice([2, 3, 5, 8])
-            if kind == "geometric_bounds":
-                kw["truncations"] = (-rng.choice([0.5, 1.0, 2.0]), rng.choice([0.75, 1.5, 3.0]))
-            if kind == "fixed":
-                kw["nb_of_points"] = rng.choice([5, 9, 21, 41])
-            if kind == "probstep":
-                kw["minimum_probability_step"] = rng.choice([0.05, 0.1, 0.2])
-                h = max(h, 0.05)
-            if kind == "credit":
-                kw["level_a"] = -rng.choice([0.25, 0.3, 0.5])
-            try:
-                g, gd = zoo.make_grid(kind, model, h, **kw)
-            except Exception as e:
-                ctx.branches[f"c04.ctor_raises:{kind}:{type(e).__name__}"] += 1
+            drawn = draw_grid(ctx, rng, model, hs)
+            if drawn is None:
                 continue
-            ax0 = [float(x) for x in g.axes[0]]
-            if not axis_ok(ax0, int(g.origin_coordinate.value)):
-                ctx.branches[f"c04.skipped_not_wellformed:{kind}"] += 1
-                continue
-            k = rng.randint(0, 2 if kind != "probstep" else 1)
-            while k > 0 and (len(ax0) - 1) * 2 ** k + 1 > 500:
-                k -= 1
-            for _ in range(k):
-                g.refine()
-            if not axis_ok([float(x) for x in g.axes[0]], int(g.origin_coordinate.value)):
-                ctx.branches[f"c04.skipped_not_wellformed_after_refine:{kind}"] += 1
-                continue
+            g, gd, kind, k = drawn
             method = "INVERSION" if rng.random() < 0.7 else "BINARYSEARCHTREEADAPTED1D"
             d = dict(stream="1d", family=fam, params=params, exp=exp, rep=rep_name, grid=gd, k=k, method=method)
             cls = dict(stream="1d", kind=kind, family=fam, dimension=1)
             guarded(ctx, d, cls, chain_probe, ctx, d, cls, model, rep, g, method, corr=corr)
+
+
+# ------------------------------------------------------------------------------------------------- user-defined models
+class SumMeasure(LevyMeasure):
+    """a user's own Lévy measure on the library's public abstract class LevyMeasure: the measure of the sum of independent jump
+    parts (density, integrals and moments are the sums of the parts'; finite activity / variation iff every part's is)"""
+
+    def __init__(self, parts):
+        self.parts = list(parts)
+
+    def __call__(self, x):
+        return sum(p(x) for p in self.parts)
+
+    def jump_of_finite_activity(self) -> bool:
+        return all(p.jump_of_finite_activity() for p in self.parts)
+
+    def jump_of_finite_variation(self) -> bool:
+        return all(p.jump_of_finite_variation() for p in self.parts)
+
+    def finite_first_moment(self):
+        return all(p.finite_first_moment() for p in self.parts)
+
+    def blumenthal_getoor_index(self) -> float:
+        return max(p.blumenthal_getoor_index() for p in self.parts)
+
+    def _sum(self, name, a, b, *rest):
+        if a > b:
+            raise ValueError("Expected a<b when integrating the levy measure")
+        return sum(getattr(p, name)(a, b, *rest) for p in self.parts)
+
+    def integrate(self, a, b):
+        return self._sum("integrate", a, b)
+
+    def integrate_against_x(self, a, b):
+        return self._sum("integrate_against_x", a, b)
+
+    def integrate_against_xx(self, a, b):
+        return self._sum("integrate_against_xx", a, b)
+
+    def integrate_against_xn(self, a, b, n):
+        return self._sum("integrate_against_xn", a, b, n)
+
+
+class UserLevyModel(LevyModel):
+    """a user's own model on the library's public abstract class LevyModel: a Brownian part of volatility sigma plus the independent
+    jump parts of one or two shipped families, the triplet (a, sigma, nu) DECLARED at construction in a representation of the
+    user's choice.  The shipped families fix the combination (CGMY: sigma = 0; HEM / Merton: finite activity; VG: finite variation);
+    the property quantifies over every model."""
+
+    def __init__(self, a, sigma, jump_models, representation):
+        self.jump_models = list(jump_models)
+        nus = [m.levy_triplet.nu for m in self.jump_models]
+        triplet = LevyTriplet(a=a, sigma=sigma, nu=nus[0] if len(nus) == 1 else SumMeasure(nus), representation=representation)
+        super().__init__(model_type=self.jump_models[0].model_type, levy_triplet=triplet, cumulant=None)
+
+    def __repr__(self):
+        return f"UserLevyModel(a={self.levy_triplet.a}, sigma={self.levy_triplet.sigma}, jumps={self.jump_models!r})"
+
+    def levy_exponent_pure_jump(self, x: complex) -> complex:
+        return sum(m.levy_exponent_pure_jump(x) for m in self.jump_models)
+
+    def intensity(self) -> float:
+        return sum(m.intensity() for m in self.jump_models)
+
+
+USER_LEAD = [  # the first cases of every run: diffusion + jump parts in the combinations no shipped family has
+    [("cgmy", 1.5)], [("cgmy", 1.5), ("merton", None)], [("vg", None)], [("cgmy", 1.0)], [("cgmy", 0.5), ("hem", None)], [("cgmy", 1.5), ("cgmy", 0.5)]]
+
+
+def user_case(rng, i):
+    if i < len(USER_LEAD):
+        fams, sigma = USER_LEAD[i], rng.choice([0.125, 0.25, 0.5])
+    else:
+        fams = [(f, rng.choice([1.5, 1.5, 1.0, 0.5, 0.0, -0.5]) if f == "cgmy" else None)
+                for f in (rng.choice(zoo.FAMILIES) for _ in range(1 if rng.random() < 0.6 else 2))]
+        sigma = rng.choice([0.0, 0.125, 0.25, 0.5])
+    parts = [(f, zoo.draw_params(rng, f, y_branch=y) if f == "cgmy" else zoo.draw_params(rng, f)) for f, y in fams]
+    fv = all(f != "cgmy" or p["y"] < 1.0 for f, p in parts)
+    reps = ["ONEONE", "TILDE", "CENTER"] + (["ZERO"] if fv else [])
+    return dict(stream="user", parts=parts, sigma=sigma, a=rng.randint(-16, 16) / 32, rep_declared=rng.choice(reps),
+                rep=rng.choice(["AS_BUILT", "AS_BUILT"] + reps), exp=rng.random() < 0.4)
+
+
+def build_user_model(d):
+    """the user's model: declared (a, sigma, nu) in `rep_declared` at construction; optionally wrapped in the public
+    ExponentialOfLevyModel (log process); optionally re-declared in `rep` on the caller's model"""
+    user = UserLevyModel(a=d["a"], sigma=d["sigma"], jump_models=[zoo.make_levy(f, p) for f, p in d["parts"]],
+                         representation=REPS[d["rep_declared"]])
+    model = ExponentialOfLevyModel(spot=100.0, r=0.02, d=0.0, levy_model=user) if d["exp"] else user
+    if d["rep"] != "AS_BUILT":
+        model.levy_triplet.set_representation(REPS[d["rep"]])
+    return model
+
+
+def make_margin(family, params):
+    """a margin of a copula model: a shipped family, or ("user", dict(parts, sigma[, a, rep_declared])) - the user's own model"""
+    if family != "user":
+        return zoo.make_levy(family, params)
+    return UserLevyModel(a=params.get("a", 0.0), sigma=params["sigma"], jump_models=[zoo.make_levy(f, q) for f, q in params["parts"]],
+                         representation=REPS[params.get("rep_declared", "ONEONE")])
+
+
+def user_probe(ctx, d, corr=True, built=None):
+    model, g = built if built is not None else (None, None)
+    if model is None:
+        model = build_user_model(d)
+        g = grid_from_desc(model, d["grid"])
+        for _ in range(d["k"]):
+            g.refine()
+    fams = "+".join(f for f, _ in d["parts"])
+    cls = dict(stream="user", kind=d["grid"]["kind"], family="user", parts=fams, dimension=1, diffusion=d["sigma"] > 0)
+    ctx.branches[f"c04.user:{fams}:{'sigma>0' if d['sigma'] > 0 else 'sigma=0'}:{'fv' if model.jump_of_finite_variation() else 'iv'}"
+                 f":{'exp' if d['exp'] else 'levy'}"] += 1
+    guarded(ctx, d, cls, chain_probe, ctx, d, cls, model, None, g, d["method"], corr=corr)
+
+
+def run_user(ctx, n, corr=True):
+    """user-defined collaborators: models (and measures) built on the public abstract classes, combining what no shipped class does"""
+    rng = ctx.rng
+    for i in range(n):
+        d = user_case(rng, i)
+        model = build_user_model(d)
+        if not math.isfinite(float(model.levy_triplet.a)):
+            ctx.branches[f"c04.declared_a_nonfinite:user:{d['rep']}"] += 1
+            continue
+        drawn = draw_grid(ctx, rng, model, [0.2, 0.1, 0.05])
+        if drawn is None:
+            continue
+        g, gd, kind, k = drawn
+        d.update(grid=gd, k=k, method="INVERSION" if rng.random() < 0.7 else "BINARYSEARCHTREEADAPTED1D")
+        user_probe(ctx, d, corr=corr, built=(model, g))
 
 
 # ------------------------------------------------------------------------------------------------- synthetic
@@ -614,11 +814,21 @@ def copula_case(rng):
         gd = dict(kind="fixed", h=rng.choice([0.2, 0.1, 0.05]), nb=rng.choice([5, 7]), dim=2)
     else:
         gd = dict(kind="credit_nd", h=rng.choice([0.1, 0.05]), a=[-rng.choice([0.25, 0.3, 0.4]) for _ in range(2)], sym=False, dim=2)
-    return dict(stream="copula", margins=margins, copula=cop, copula_kw=cop_kw, grid=gd, k=rng.choice([0, 0, 1]), exp=rng.random() < 0.4)
+    d = dict(stream="copula", margins=margins, copula=cop, copula_kw=cop_kw, grid=gd, k=rng.choice([0, 0, 1]), exp=rng.random() < 0.4)
+    if rng.random() < 0.3:
+        # a user-defined margin: diffusion + finite-variation jumps (one or two parts), declared at construction in any representation
+        fams = [rng.choice(["vg", "cgmy", "hem", "merton"]) for _ in range(rng.choice([1, 1, 2]))]
+        parts = [(f, zoo.draw_params(rng, f, y_branch=rng.choice([-0.5, 0.0, 0.5])) if f == "cgmy" else zoo.draw_params(rng, f)) for f in fams]
+        margins[rng.randrange(2)] = ("user", dict(parts=parts, sigma=rng.choice([0.125, 0.25, 0.5]), a=rng.randint(-16, 16) / 32,
+                                                  rep_declared=rng.choice(["ONEONE", "TILDE", "CENTER", "ZERO"])))
+    return d
 
 
 def build_copula(d):
-    mk = zoo.make_exp if d.get("exp") else zoo.make_levy
+    def mk(f, p):
+        if not d.get("exp"):
+            return make_margin(f, p)
+        return ExponentialOfLevyModel(spot=100.0, r=0.02, d=0.0, levy_model=make_margin(f, p)) if f == "user" else zoo.make_exp(f, p)
     margins = [mk(f, p) for f, p in d["margins"]]
     cm = zoo.make_copula_model(margins, zoo.make_copula(d["copula"], **d["copula_kw"]))
     gd = d["grid"]
@@ -676,6 +886,9 @@ def _copula_probe(ctx, d, cls, corr):
         rate[cs] = float(mc.model.mass(a, b))
     lam = float(mc.intensity_of_jumps)
     ctx.count("c04.copula", d, nontrivial=n >= 5, branch=f"{d['copula']}:{d['grid']['kind']}:k{d['k']}")
+    for f, p in d["margins"]:
+        if f == "user":
+            ctx.branches[f"c04.copula:user_margin:{p['rep_declared']}:{d['copula']}"] += 1
     margin_drift = {}                                   # margin -> (oracle mean - jump mean, scale) where the margin's mean holds
     for k in range(2):
         dk = dict(d, margin=k)
@@ -690,6 +903,11 @@ def _copula_probe(ctx, d, cls, corr):
         jump_mean = math.fsum(x * c for x, c in zip(ax, cols))
         abs_jump = math.fsum(abs(x) * c for x, c in zip(ax, cols))
         margin_mean = drift[k] + jump_mean
+        bad = nonfinite(process_drift=drift[k], rates_of_the_coordinate=cols, jump_mean=jump_mean, intervals_walked=recs[k].calls)
+        if bad:
+            ctx.fail("oracle", "c04.chain.nonfinite", dk, {"what": "the copula chain hands out non-finite numbers where the statement needs numbers",
+                                                         "margin": k, "non_finite": bad, "process_drift": drift[k], "jump_mean": jump_mean}, cls=cls)
+            return
         # S: the margin's mean against the truncated margin in its declared representation (tilde cut-off V of the copula)
         I, S = truncated_mean(nu0, ax[0], ax[-1], rep, bool(caller.jump_of_finite_variation()))
         expected = mdrift + a_decl + I
@@ -709,7 +927,15 @@ def _copula_probe(ctx, d, cls, corr):
             nu_t = mc.model.models[k].levy_triplet.nu
             a_tilde = float(mc.model.models[k].levy_triplet.a)
             sigma = float(caller.diffusion_coefficient())
-            m_walked = rdll(ctx.lean(f"muhcells {wl(ax)} {wl(ax)} {o} []"))
+            bad = nonfinite(axis=ax, h=h, a_tilde=a_tilde, sigma=sigma, model_drift=mdrift)
+            if bad:
+                ctx.fail("oracle", "c04.chain.nonfinite", dk, {"what": "the copula chain / the margin hands out non-finite numbers where the statement "
+                                                             "needs numbers", "margin": k, "non_finite": bad}, cls=cls)
+                return
+            out = ask(ctx, dk, cls, ["muhcells", wl(ax), wl(ax), str(o), "[]"], [rdll])
+            if out is None:
+                return
+            m_walked = out[0]
             span = fr(max(abs(ax[0]), abs(ax[-1])))
             cells_mirror = len(m_walked) == len(walked) and all(close(a, x, scale=span) and close(b, y, scale=span)
                                                                 for (a, b), (x, y) in zip(walked, m_walked))
@@ -717,29 +943,46 @@ def _copula_probe(ctx, d, cls, corr):
                 ctx.fail("corr", "c04.muhcells.model", dk, {"name": "Drivers/C04 muHCells(axis, axis) vs the intervals compute_mu_h integrates over (margin)",
                                                           "impl": walked[:4], "model": [[str(x) for x in r] for r in m_walked[:4]]}, cls=cls)
                 return
-            head = f"{wl(ax)} {o} {w(h)} [] {1 if fv else 0}"
-            qs = ctx.lean(f"queries {head}").split(" ")
-            qm, q1 = rdll(qs[0]), rdll(qs[1])
+            head = [wl(ax), str(o), w(h), "[]", "1" if fv else "0"]
+            qs = ask(ctx, dk, cls, ["queries"] + head, [rdll, rdll])
+            if qs is None:
+                return
+            qm, q1 = qs
             mv = [float(nu0.integrate(float(a), float(b))) for a, b in qm]
             m1v = [float(nu0.integrate_against_x(float(a), float(b))) for a, b in q1]
-            out = ctx.lean(f"chain {head} {w(sigma)} {w(mdrift)} {w(a_tilde)} {wl(mv)} {wl(m1v)} [0] []").split(" ")
-            m_mut = rd(out[1])
             vals = [float(nu_t.integrate(float(a), float(b))) for a, b in m_walked]
-            m_muh = rd(ctx.lean(f"muh2 {wl(ax)} {wl(ax)} {o} [] {wl(vals)}"))
-            m_drift = fr(mdrift) + fr(a_tilde) + m_mut - m_muh
-            m_colmean = m_drift + sum((fr(x) * fr(c) for x, c in zip(ax, cols)), Fraction(0))
-            sc = max(fr(abs(mdrift) + abs(a_tilde) + sum(abs(v) for v in m1v) + abs_jump), Fraction(1, 2 ** 200))
-            if not close(drift[k], m_drift, scale=sc):
-                ctx.fail("corr", "c04.process_drift.model", dk, {"name": "Drivers/C04 modelDrift + aTilde + muTilde - muH(axis, axis) vs "
-                                                                       "MarkovChainLevyCopula.process_drift()[k]", "impl": drift[k], "model": str(m_drift)}, cls=cls)
+            if nonfinite(masses=vals):
+                # the masses of the truncated margin on the cells compute_mu_h walks are the rates the drift compensates
+                ctx.fail("oracle", "c04.chain.nonfinite", dk, {"what": "the truncated margin's measure gives a non-finite mass to a cell of the axis "
+                                                             "(the rates compute_mu_h weights the states with)", "margin": k,
+                                                             "cells": [[float(a), float(b)] for a, b in m_walked][:6], "masses": [repr(v) for v in vals][:6]}, cls=cls)
                 return
-            mirrors = close(margin_mean, m_colmean, scale=sc)
-            if not mirrors:
-                ctx.fail("corr", "c04.margin_mean.model", dk, {"name": "Drivers/C04 processDrift + sum x_k col_k vs the implementation",
-                                                             "impl": margin_mean, "model": str(m_colmean)}, cls=cls)
-                return
-            if unequal:
-                ctx.branches["c04.copula:unequal_axes_margin"] += 1
+            tie = not nonfinite(mv=mv, m1v=m1v)
+            if not tie:
+                ctx.branches["c04.corr_skipped_nonfinite_integral"] += 1
+            if tie:
+                out = ask(ctx, dk, cls, ["chain"] + head + [sigma, mdrift, a_tilde, wl(mv), wl(m1v), "[0]", "[]"], [rd, rd])
+                if out is None:
+                    return
+                m_mut = out[1]
+                out = ask(ctx, dk, cls, ["muh2", wl(ax), wl(ax), str(o), "[]", wl(vals)], [rd])
+                if out is None:
+                    return
+                m_muh = out[0]
+                m_drift = fr(mdrift) + fr(a_tilde) + m_mut - m_muh
+                m_colmean = m_drift + sum((fr(x) * fr(c) for x, c in zip(ax, cols)), Fraction(0))
+                sc = max(fr(abs(mdrift) + abs(a_tilde) + sum(abs(v) for v in m1v) + abs_jump), Fraction(1, 2 ** 200))
+                if not close(drift[k], m_drift, scale=sc):
+                    ctx.fail("corr", "c04.process_drift.model", dk, {"name": "Drivers/C04 modelDrift + aTilde + muTilde - muH(axis, axis) vs "
+                                                                           "MarkovChainLevyCopula.process_drift()[k]", "impl": drift[k], "model": str(m_drift)}, cls=cls)
+                    return
+                mirrors = close(margin_mean, m_colmean, scale=sc)
+                if not mirrors:
+                    ctx.fail("corr", "c04.margin_mean.model", dk, {"name": "Drivers/C04 processDrift + sum x_k col_k vs the implementation",
+                                                                 "impl": margin_mean, "model": str(m_colmean)}, cls=cls)
+                    return
+                if unequal:
+                    ctx.branches["c04.copula:unequal_axes_margin"] += 1
         if walked != own_cells:
             bad = next((i for i, (a, b) in enumerate(zip(walked, own_cells)) if a != b), min(len(walked), len(own_cells)))
             ctx.fail("oracle", "c04.muh_uses_cells", dk, {"margin": k, "position": bad, "walked": walked[bad:bad + 2], "cells_of_the_axis": own_cells[bad:bad + 2],
@@ -865,6 +1108,10 @@ def matrix_checks(ctx, d, cls, dim, fv, outs_ij, sig, Vs, D, exact, corr=True):
                  "term is added", "pairs_evaluated": [list(ij) for ij, _ in outs_ij]}, cls=cls)
         return None
     outs = [v for _, v in outs_ij]
+    if nonfinite(results=outs, sigma=sig):
+        ctx.fail("oracle", "c04.variance_matrix.nonfinite", d, {"what": "a small-jump covariance (vol_adjustment_ij) or a diffusion coefficient of a "
+                 "margin is not a finite number", "results": [repr(v) for v in outs], "sigma": [repr(v) for v in sig]}, cls=cls)
+        return None
     Dc0 = np.asarray(D)
     Vs = [W for W in Vs if W.shape == (dim, dim)]
     if not Vs:
@@ -876,6 +1123,10 @@ def matrix_checks(ctx, d, cls, dim, fv, outs_ij, sig, Vs, D, exact, corr=True):
         Dr0 = np.asarray(Dc0.real, dtype=float)
         Vs, exact = [Dr0 @ Dr0.T], False
     V = Vs[-1]
+    if not np.all(np.isfinite(V)):
+        ctx.fail("oracle", "c04.variance_matrix.nonfinite", d, {"what": "the variance matrix handed to the factorisation has non-finite entries",
+                                                              "variance_matrix": str(V.tolist())[:400]}, cls=cls)
+        return None
     if any(not np.array_equal(V, W) for W in Vs):
         ctx.fail("oracle", "c04.variance_matrix.deterministic", d, {"what": "two constructions of the simulation object of the same chain "
                  "hand different matrices to the factorisation", "first": Vs[0].tolist(), "last": V.tolist()}, cls=cls)
@@ -883,10 +1134,10 @@ def matrix_checks(ctx, d, cls, dim, fv, outs_ij, sig, Vs, D, exact, corr=True):
     mirrors = None
     if corr:
         x = [Fraction(ctx.rng.randint(-8, 8), 4) for _ in range(dim)]
-        out = ctx.lean(f"assemble {dim} {1 if fv else 0} {wl(outs)} {wl(sig)} {wl(x)}").split(" ")
-        if out[0] == "bad-op":
-            raise Infra("Drivers/C04 assemble rejected its input")
-        adj, coded, spec, symm, qf = rdll(out[0]), rdll(out[1]), rdll(out[2]), out[3], rd(out[4])
+        out = ask(ctx, d, cls, ["assemble", str(dim), "1" if fv else "0", wl(outs), wl(sig), wl(x)], [rdll, rdll, rdll, str, rd])
+        if out is None:
+            return None
+        adj, coded, spec, symm, qf = out
         if symm != "1" or qf < 0:
             ctx.fail("proof", "c04.variance_matrix.theorem", d, {"name": "variance_matrix_as_built contradicted by the driver", "symm": symm,
                                                                   "quadratic_form": str(qf)}, cls=cls)
@@ -934,7 +1185,7 @@ def variance_matrix_probe(ctx, d, corr=True):
     addition: the k-th diagonal entry of diffusion_matrix @ diffusion_matrix.T must be the variance the 1-d chain of margin k adds
     (sigma_k² + ∫ x² ν_k on the central cell)"""
     dim = d.get("dim", 2)
-    margins = [zoo.make_levy(f, p) for f, p in d["margins"]]
+    margins = [make_margin(f, p) for f, p in d["margins"]]
     cm = zoo.make_copula_model(margins, zoo.make_copula(d["copula"], **d.get("copula_kw", {})))
     fv = bool(cm.jump_of_finite_variation())
     cls = dict(stream="variance_matrix", copula=d["copula"], dimension=dim, infinite_variation=not fv)
@@ -974,9 +1225,13 @@ def variance_matrix_probe(ctx, d, corr=True):
                      cls=cls, mirrors_model=mirrors)
 
 
-SCRIPT_MARGINS = {True: [("hem", dict(sigma=0.0)), ("merton", dict(sigma=0.125)), ("hem", dict(sigma=0.25)), ("merton", dict(sigma=0.5))],
+SCRIPT_MARGINS = {True: [("hem", dict(sigma=0.0)), ("merton", dict(sigma=0.125)), ("hem", dict(sigma=0.25)), ("merton", dict(sigma=0.5)),
+                         ("user", dict(parts=[("vg", {})], sigma=0.25)), ("user", dict(parts=[("cgmy", dict(c=0.5, g=10.0, m=12.0, y=0.5))], sigma=0.5))],
                   False: [("cgmy", dict(c=0.5, g=10.0, m=12.0, y=1.5)), ("hem", dict(sigma=0.25)), ("cgmy", dict(c=0.3, g=8.0, m=9.0, y=1.25)),
-                          ("merton", dict(sigma=0.5))]}
+                          ("merton", dict(sigma=0.5)),
+                          # user-defined margins: diffusion AND infinite-variation jumps in the same margin (no shipped family has both)
+                          ("user", dict(parts=[("cgmy", dict(c=0.5, g=10.0, m=12.0, y=1.5))], sigma=0.25)),
+                          ("user", dict(parts=[("cgmy", dict(c=0.3, g=8.0, m=9.0, y=1.25)), ("merton", {})], sigma=0.5))]}
 
 
 def scripted_matrix_case(rng):
@@ -994,7 +1249,7 @@ def scripted_matrix_probe(ctx, d, corr=True):
     replaced by a table; finite variation: no result may be asked for"""
     import types
     dim = d["dim"]
-    margins = [zoo.make_levy(f, p) for f, p in d["margins"]]
+    margins = [make_margin(f, p) for f, p in d["margins"]]
     cm = zoo.make_copula_model(margins, zoo.make_copula("independent"))
     fv = bool(cm.jump_of_finite_variation())
     cls = dict(stream="variance_matrix_scripted", dimension=dim, infinite_variation=not fv)
@@ -1053,6 +1308,7 @@ def run(ctx, corr=True):
     for _ in range(ctx.n(12, 120)):
         d = scripted_matrix_case(rng)
         guarded(ctx, d, dict(stream="variance_matrix_scripted", dimension=d["dim"]), scripted_matrix_probe, ctx, d, corr=corr)
+    run_user(ctx, ctx.n(24, 400), corr=corr)
     ctx.notes.append(f"largest deviations: mean oracle {MAXDEV['mean']:.2e} (tolerance {MEAN_REL}), eqDiff² vs quadrature {MAXDEV['eqdiff']:.2e} "
                      f"(1e-8), variance gap / bound {MAXDEV['var_ratio']:.3f} (<= 1), independent-copula margin mean {MAXDEV['margin_indep']:.2e}; simulation schemes: coefficient² applied vs oracle "
                      f"{MAXDEV['scheme_coef']:.2e} (1e-8), drift applied vs oracle {MAXDEV['scheme_drift']:.2e} ({MEAN_REL})")
@@ -1067,6 +1323,7 @@ def search(ctx):
     for _ in range(ctx.n(40, 200)):
         d = scripted_matrix_case(ctx.rng)
         guarded(ctx, d, dict(stream="variance_matrix_scripted", dimension=d["dim"]), scripted_matrix_probe, ctx, d, corr=False)
+    run_user(ctx, ctx.n(40, 300), corr=False)
 
 
 def replay(ctx, rec):
@@ -1085,6 +1342,8 @@ def replay(ctx, rec):
             g.refine()
         cls = rec.get("cls") or dict(stream="1d", kind=d["grid"]["kind"], family=d["family"], dimension=1)
         guarded(ctx, d, cls, chain_probe, ctx, d, cls, model, rep, g, d["method"])
+    elif s == "user":
+        user_probe(ctx, dict(d, parts=[tuple(m) for m in d["parts"]]))
     elif s == "copula":
         d = {k: v for k, v in d.items() if k != "margin"}
         copula_probe(ctx, dict(d, margins=[tuple(m) for m in d["margins"]]))
